@@ -553,6 +553,7 @@ type LexerVocab struct {
 	Literals map[string]string // token name -> single literal (for rules of the form NAME: 'lit' ...;)
 	Modes    []string
 	Rules    []string // all non-fragment lexer rule names in declaration order (incl. those re-typed with -> type(X))
+	AllRules []string // Rules plus fragment rules, in declaration order (ANTLR lists fragments among the lexer rule names)
 }
 
 var (
@@ -562,8 +563,7 @@ var (
 
 // ParseLexerVocab extracts the token vocabulary of a lexer grammar.
 func ParseLexerVocab(src string) *LexerVocab {
-	// drop comments
-	src = regexp.MustCompile(`//[^\n]*`).ReplaceAllString(src, "")
+	// comments are skipped by the tokenizer (a naive strip would cut the literal '//' of CEL_COMMENT)
 	v := &LexerVocab{Literals: map[string]string{}}
 	seen := map[string]bool{}
 	add := func(n string) {
@@ -616,6 +616,7 @@ func ParseLexerVocab(src string) *LexerVocab {
 			j++
 		}
 		i = j + 1
+		v.AllRules = append(v.AllRules, name)
 		if frag {
 			continue
 		}
